@@ -17,7 +17,7 @@ Open Scope Z_scope.
 (* ---------------------------------------------------------------------------------------- *)
 (* 1. exceptions                                                                              *)
 (* ---------------------------------------------------------------------------------------- *)
-Inductive exn := EIndex | EValue | EAssert | EZeroDiv.
+Inductive exn := EIndex | EValue | EAssert | EZeroDiv | ENotImpl | EType.
 
 Inductive res (X : Type) := Ok (x : X) | Err (e : exn).
 Arguments Ok {X} x.
@@ -41,7 +41,7 @@ Fixpoint mapE {X Y} (f : X -> res Y) (l : list X) : res (list Y) :=
   end.
 
 Definition exn_code (e : exn) : Z :=
-  match e with EIndex => 1 | EValue => 2 | EAssert => 3 | EZeroDiv => 4 end.
+  match e with EIndex => 1 | EValue => 2 | EAssert => 3 | EZeroDiv => 4 | ENotImpl => 5 | EType => 6 end.
 
 (* one array.  a[i] out of range: IndexError; slice step 0: ValueError; a fancy index out of range:
    IndexError *)
@@ -189,11 +189,31 @@ Definition memmap_rows_e (fsize offset itemsize nch : Z) : res Z :=
   else let n := (fsize - offset) / (itemsize * nch) in
        if n <? 0 then Err EValue else Ok n.
 
-(* FlatEphysReader.__init__: one _memmap_flat per path, in order; then _get_chunk_bounds asserts
-   chunk_size > 0 (chunk_size = int(round(600 * sample_rate))); the part bounds *)
-Definition flat_ctor_e (fsizes : list Z) (offset itemsize nch cs : Z) : res (list Z) :=
-  ebind (mapE (fun f => memmap_rows_e f offset itemsize nch) fsizes)
-        (fun sizes => if cs <=? 0 then Err EAssert else Ok (part_bounds sizes)).
+(* FlatEphysReader.__init__ on files of the given byte sizes (a negative size = the file does not exist):
+   assert all(p.exists()); one _memmap_flat per path, in order; then _get_chunk_bounds asserts
+   chunk_size > 0 (chunk_size = int(round(600 * sample_rate))); the part bounds.
+   Reached through get_ephys_reader(list of paths) ([direct] = false) a missing FIRST path makes the
+   function return None (Ok None here), a missing later path becomes Path(None): TypeError. *)
+Definition flat_ctor_e (direct : bool) (fsizes : list Z) (offset itemsize nch cs : Z) : res (option (list Z)) :=
+  let missing := existsb (fun f => f <? 0) in
+  let build :=
+    ebind (mapE (fun f => memmap_rows_e f offset itemsize nch) fsizes)
+          (fun sizes => if cs <=? 0 then Err EAssert else Ok (Some (part_bounds sizes))) in
+  if direct then (if missing fsizes then Err EAssert else build)
+  else match fsizes with
+       | [] => Err EType                                    (* get_ephys_reader([]): None is unpacked *)
+       | f0 :: rest => if f0 <? 0 then Ok None else if missing rest then Err EType else build
+       end.
+
+(* two dispatches on the SHAPE of the argument: reader[t] for a tuple t of k index expressions (k = 1: t[0],
+   k = 2: rows and columns, anything else NotImplementedError); get_ephys_reader on a list of k .npy paths
+   (exactly one, else ValueError) *)
+Inductive shape_case := TupleArity (k : Z) | NpyPaths (k : Z).
+Definition dispatch_e (s : shape_case) : res unit :=
+  match s with
+  | TupleArity k => if (k =? 1) || (k =? 2) then Ok tt else Err ENotImpl
+  | NpyPaths k => if k =? 1 then Ok tt else Err EValue               (* k >= 1 *)
+  end.
 
 (* phylib's reading of the slice bounds (for n > 0): `x or default`, negative values modulo n, then
    min(., n).  Not NumPy's: stop = 0 means "to the end", values below -n wrap around again. *)
